@@ -13,7 +13,7 @@ theorem lineIntersects_iff (L : Seg) (B : Box) : lineIntersects L B = true ↔ M
   simp only [Int.cast_sub]
 
 /-- C02 (routing): on every level the descent returns exactly the hot quadrants the closed segment meets, in travel order. -/
-theorem C02_routing (g : Grid) (hot : Nat → Quad → Bool) (L : Seg) (hres : 0 < g.res) (hclosed : HotClosed hot)
+theorem C02_routing (g : Grid) (hot : Nat → Quad → Bool) (L : Seg) (hres : 0 < g.res) (hclosed : HotClosed g.depth hot)
     (l : Nat) (hl : l ≤ g.depth) :
     (∀ p, p ∈ snapLevel lineIntersects g hot L l ↔ Found g hot L l p) ∧
     (snapLevel lineIntersects g hot L l).Pairwise (fun a b => Precedes L (g.box l a) (g.box l b)) :=
